@@ -146,7 +146,7 @@ def check_props(pid: str, clean: bool = False):
         if b.startswith("Closed"):
             th = dict(name=n, closed=True, axioms=[])
         else:
-            axs = re.findall(r"^([A-Za-z0-9_.']+)\s*:", b, re.M)
+            axs = [a for a in re.findall(r"^([A-Za-z0-9_.']+)\s*:", b, re.M) if a != "Axioms"]
             th = dict(name=n, closed=False, axioms=axs)
         res["theorems"].append(th)
     good = [t for t in res["theorems"] if t["name"] in names and (t["closed"] or set(t["axioms"]) <= allowed)]
